@@ -4,7 +4,11 @@
 (* Audience values are tokens; "match" is the configured URI, "case",      *)
 (* "slash", "ws" are near misses of it, "other" is unrelated, "emptyaud"   *)
 (* is an Audience element with empty text.  The configured audience is     *)
-(* "uri" or "empty" (the empty string).                                    *)
+(* "uri", "empty" (the empty string), "padded" (the URI with white space   *)
+(* around it) or "space" (one blank); "match" is byte-identical to what    *)
+(* is configured (for "empty": the plain URI, which then matches nothing). *)
+(* authn: whether the first assertion carries an AuthnStatement (the       *)
+(* warnings do not depend on it).                                          *)
 (***************************************************************************)
 EXTENDS Naturals, Sequences, FiniteSets, TLC
 
@@ -18,16 +22,16 @@ ProxyShapes == {[present |-> FALSE, count |-> "absent", aud |-> << >>]} \cup
 NoProxy == [present |-> FALSE, count |-> "absent", aud |-> << >>]
 FixedAr == << <<"match">> >>
 
-Cfgs   == [aud : {"uri", "empty"}]
+Cfgs   == [aud : {"uri", "empty", "padded", "space"}]
 \* the two dimensions are varied one at a time to keep the product small
 \* win: the SP clock relative to the Conditions validity window (the subject confirmation stays valid,
 \* so the Response is accepted either way and only the time warning differs)
 Wins == {"in", "before", "after"}
-Inputs == [ars : Seqs(Restrictions, MaxRestrictions), otu : BOOLEAN, proxy : {NoProxy}, win : Wins] \cup
-          [ars : {FixedAr, << >>}, otu : BOOLEAN, proxy : ProxyShapes, win : Wins]
+Inputs == [ars : Seqs(Restrictions, MaxRestrictions), otu : BOOLEAN, proxy : {NoProxy}, win : Wins, authn : BOOLEAN] \cup
+          [ars : {FixedAr, << >>}, otu : BOOLEAN, proxy : ProxyShapes, win : Wins, authn : BOOLEAN]
 
 \* exact string equality after concretisation
-Eq(tok, cfgaud) == (cfgaud = "uri" /\ tok = "match") \/ (cfgaud = "empty" /\ tok = "emptyaud")
+Eq(tok, cfgaud) == (cfgaud \in {"uri", "padded", "space"} /\ tok = "match") \/ (cfgaud = "empty" /\ tok = "emptyaud")
 
 \* validate.go:101-116
 RECURSIVE Loop(_, _, _)
